@@ -7,11 +7,14 @@ the producer task is spawned; (R5) the crate keeps deny(unused_must_use).
 Does not decide: that every operator *returns* an error for every bad input (value level)."""
 import re
 
+from mir import operand_places
 from tmpl import fate, site, start_sites, done_sites, suffix, result_switch_fate
 
 ERR_TYPES = ('storage::error::TracedStorageError', 'storage::error::StorageError', 'types::ConvertError',
              'executor::error::Error', 'catalog::CatalogError', 'std::io::Error', 'db::Error', 'csv::Error',
-             'serde_json::Error', 'binder::error::BindError', 'tokio::task::JoinError')
+             'serde_json::Error', 'binder::error::BindError', 'tokio::task::JoinError',
+             # decoding of stored bytes (after seed C03-e: a record cut off at a buffer end was skipped with `while let Ok(..)`)
+             'prost::DecodeError', 'prost::EncodeError', 'std::string::FromUtf8Error', 'std::str::Utf8Error')
 STATEMENT_PATH = re.compile(r'^<?(executor|storage|db|array|catalog)::')
 # consumers that look at the error and turn it into control flow / propagate it
 PROPAGATE = re.compile(r'(Try::branch|FromResidual::from_residual|Result::<[^>]*>::(map_err|map|and_then|or_else|unwrap|expect'
@@ -343,6 +346,46 @@ def run(ctx):
     ctx.ob(R7, 'stream-combinators·none-discards-results', True, f'{n_comb} Stream combinator calls on the statement path examined', nontrivial=False)
     ctx.floor(R7, n_comb, 5, 'StreamExt / TryStreamExt calls on the statement path')
 
+    decode_errors_examined(ctx, prog, 'C15-R8', STATEMENT_PATH, 3)
+
 
 def short(n):
     return re.sub(r'<[^<>]*>', '', n or '?')
+
+
+def decode_errors_examined(ctx, prog, R8, path_re, floor):
+    """C15-R8 = C03-R9: decode errors of stored bytes are looked at"""
+    ctx.rule(R8, 'a failure to decode stored bytes (prost / serde_json / csv / utf-8) is looked at: the Result of a decoding call on the '
+                 'storage and statement paths is either propagated (`?`, map_err, unwrap ..) or, if it is matched, some code reads the error '
+                 'value. `while let Ok(x) = decode(..)` / `if let Ok(..)` with an Err arm that goes on to a successful return treats a corrupt or '
+                 'truncated record as the end of the data: the rest of the file is dropped without a word')
+    DECODE_ERR = ('prost::DecodeError', 'serde_json::Error', 'csv::Error', 'std::string::FromUtf8Error', 'std::str::Utf8Error')
+    n_dec = 0
+    for b in prog.bodies.values():
+        if not path_re.search(b.name) or b.rec.get('derived'):
+            continue
+        for c in b.calls:
+            dt = c.t.get('dest_ty', '')
+            if not (dt.startswith('std::result::Result<') and any(dt.endswith(', ' + e + '>') for e in DECODE_ERR)) or c.dest['p']:
+                continue
+            n_dec += 1
+            d = c.dest['l']
+            switched = [i for i, bl in enumerate(b.blocks) if bl['term']['k'] == 'switch' and not bl['cleanup']
+                        and (bl['term'].get('adt') or '').startswith('std::result::Result')
+                        and bl['term'].get('on') and bl['term']['on']['l'] == d and not bl['term']['on']['p']]
+            if not switched:
+                continue
+            reads_err = any(pl['l'] == d and pl['p'] and pl['p'][0] == 'as:Err' for _, st in b.stmts() for pl in operand_places(st)) or \
+                any(a['k'] != 'const' and a['pl']['l'] == d and a['pl']['p'] and a['pl']['p'][0] == 'as:Err' for k in b.calls for a in k.args)
+            ok_exit = any(b.reachable_from([tgt]) & set(b.return_blocks()) for i in switched
+                          for v, tgt in b.blocks[i]['term']['targets'] if (b.blocks[i]['term'].get('variants') or {}).get(str(v)) == 'Err') or \
+                any(b.reachable_from([b.blocks[i]['term']['otherwise']]) & set(b.return_blocks()) for i in switched)
+            ctx.functions_analysed.add(b.name)
+            ctx.ob(R8, f'{b.root}·{short(c.fn).rsplit("::", 1)[-1]}·decode-error-examined', reads_err or not ok_exit,
+                   f'{b.name}: result of {c.fn} at block {c.bb} is matched at {switched}; error value read: {reads_err}; the Err arm can reach a return: {ok_exit}',
+                   [site(b, c.bb)],
+                   what=f'{b.root} matches the result of {short(c.fn).rsplit("::", 1)[-1]} and never looks at the error: a record that does not decode '
+                        '(corrupt, or cut off at the end of a read buffer) ends the loop like the end of the data, and whatever follows it is lost')
+    ctx.ob(R8, 'decoding-calls·errors-examined', True, f'{n_dec} decoding calls with a decode error type examined', nontrivial=False)
+    ctx.floor(R8, n_dec, floor, 'calls returning Result<_, decode error> on the examined paths')
+
